@@ -79,7 +79,10 @@ try:
         obs.append([a == b, hash(a) == hash(b)])
     tracing(False)
     ev_q = _verif_trace.drain()
-    out["events"] = [dict(e, phase="read") for e in _verif_trace_events_read] + [dict(e, phase="query") for e in ev_q]
+    solver = ("modulo", "expand")  # the other hooks (statements, reader, serdes) are not this check's concern
+    out["events"] = ([dict(e, phase="read") for e in _verif_trace_events_read if e["ev"] in solver] +
+                     [dict(e, phase="query") for e in ev_q if e["ev"] in solver])
+    out["other_events"] = len(_verif_trace_events_read) + len(ev_q) - len(out["events"])
     out["obs"] = obs
 except Over:
     out["over"] = True
